@@ -14,7 +14,7 @@ MANIFEST_TEXT = ("Lean 4 theorems (45) over a model in which an iterator is (con
                  "/ StaticIntegralRange enumerate from..to-1 (loops proved for every sufficient fuel), transformed ranges apply "
                  "f once per element in order, sparse ranges pair entries with indices, static and dynamic Hybrid::size/"
                  "elementAt/forEach/accumulate/ifElse/switchCases and the integer_sequence helpers agree.  The one-line "
-                 "operator bodies (87 pieces) are re-read from the headers by a translator on every run and the theorems are "
+                 "operator bodies (78 pieces, about 100 source occurrences) are re-read from the headers by a translator on every run and the theorems are "
                  "proved about the generated expressions; each run also executes the same expressions and histories on every "
                  "iterator type the library builds and diffs against the model, with an integer-position oracle.")
 MANIFEST_NOTE = ("Trusted: Lean kernel (+propext/Classical.choice/Quot.sound), the translator's reading of the operator bodies "
